@@ -20,7 +20,11 @@ type PropSpec struct {
 	Technique   string
 }
 
-var allSix = []string{"default", "force32bit", "noasm", "appengine", "force32bit,appengine", "386"}
+// build configurations: table selector {assembly, Go} x conditional move {unsafe, subtle} x limbs {64, 32};
+// the assembly selector exists only with 64-bit limbs and does not use the conditional move, so
+// default, noasm, noasm+appengine, force32bit, force32bit+appengine cover every combination that
+// is compiled; appengine alone and GOARCH=386 (32-bit int, 32-bit word path of the unsafe move) complete the list.
+var allSix = []string{"default", "force32bit", "noasm", "noasm,appengine", "force32bit,appengine", "appengine", "386"}
 var twoLayouts = []string{"default", "force32bit"}
 
 var commonTrusted = []string{
@@ -70,6 +74,15 @@ var props = map[string]*PropSpec{
 		Trusted: []string{"M6 and collision resistance of SHA-512 for 'never accepted under a different pair'; what is proved is that the hashed string is dom2(f,c) || R || A || M with the RFC 8032 encoding of (f, len(c), c), the variant/context selection table, and the exact refusal conditions"},
 		Assumptions: []string{"VerifyBatch's context error / false entries are not covered (not under contract)"},
 	},
+	"C08": {
+		ID: "C08", Cone: []ConeItem{edAll, xAll, geAll, modmAll, curveAll}, Quick: []string{"default", "force32bit", "noasm", "noasm,appengine", "force32bit,appengine"}, Thorough: allSix, Ground: true,
+		Technique: techGovc + "; C08: the contracts of the exported functions are written once (config any) in terms of configuration-independent spec functions; every build configuration's code is verified against them, so any two configurations return the same bytes",
+		Trusted: append([]string{
+			"observational identity is a corollary: each configuration is proved equal to the same mathematical specification, not compared pairwise",
+			"under the default (amd64) configuration the assembly table lookup has an assumed functional contract; the other configurations verify the Go lookup",
+		}, bridgeTrusted...),
+		Assumptions: []string{"VerifyBatch verdicts are not covered (batch_verify.go is not under contract); limb128bits (the only limb-width dependent constant there) is therefore not examined", "results that the contracts leave to assumed postconditions (group result of DoubleScalarmultVartime, rejection direction of decoding) are equal across configurations only under those same assumptions"},
+	},
 	"C09": {
 		ID: "C09", Cone: []ConeItem{{Pkg: ".", Funcs: []string{"isSmallOrderVartime", "verify"}}, geAll, curveAll}, Quick: twoLayouts, Thorough: allSix, Technique: techGovc,
 		Trusted: append([]string{"M4: exactly eight points have order dividing 8; IsNeutralVartime's field-level result (x = 0 and y = z) is proved, its reading as 'is the identity' is a bridge"}, bridgeTrusted...),
@@ -91,6 +104,18 @@ var props = map[string]*PropSpec{
 		Trusted: []string{"panics of library functions are modelled (index/slice/nil/explicit panic, subtle.ConstantTimeCopy length check)"},
 		Assumptions: []string{"non-nil options; accessors on well-formed keys", "VerifyBatch is not covered by this check (not under contract): the batch clauses of the property are not claimed"},
 	},
+	"C15": {
+		ID: "C15", Cone: []ConeItem{edAll, xAll, geAll, modmAll, curveAll}, Flow: []string{"globals"}, Quick: twoLayouts, Thorough: allSix,
+		Technique: techGovc + "; C15 is decided by frames, not schedules: write-frame obligations (wframe) on every store / copy / callee modifies clause of every function under contract, one global-immutable obligation per package-level variable, freshness of results",
+		Trusted: []string{
+			"Go memory model: calls that write no memory reachable by another call and read only immutable memory cannot race and are functions of their arguments",
+			"standard-library and x/crypto functions called (sha512, subtle, binary, rand, ScalarMult) are goroutine-safe and keep no state between calls",
+		},
+		Assumptions: []string{
+			"a caller overwriting the exported x25519.Basepoint is outside the property (as stated in it)",
+			"VerifyBatch and the heap routines are not under contract: for them only the global-immutable scan applies (direct stores and address-passing to writers), not the write-frame obligations",
+		},
+	},
 	"C14": {
 		ID: "C14", Cone: []ConeItem{edKeys}, Quick: twoLayouts, Thorough: allSix, Technique: techGovc,
 		Trusted: []string{"io.ReadFull fills the buffer from the reader or fails (model); crypto/rand.Reader is non-nil"},
@@ -103,7 +128,7 @@ var props = map[string]*PropSpec{
 		}, bridgeTrusted...),
 	},
 	"C20": {
-		ID: "C20", Flow: []string{"ct"}, Quick: []string{"default", "force32bit", "noasm", "appengine"}, Thorough: allSix,
+		ID: "C20", Flow: []string{"ct"}, Quick: []string{"default", "force32bit", "noasm", "noasm,appengine", "force32bit,appengine"}, Thorough: allSix,
 		Technique: "contract-based information-flow verification of the real Go code: every function of the signing/key-generation/X25519 base-point cone carries a secrecy clause (ct) in the //@ contract file; govc checks each body against its own clause over go/ssa (no branch, index, division, allocation size or variable-time callee depends on secret data; calls are checked against the callee's clause only) and scans the assembly selector mechanically",
 		Trusted: []string{
 			"the Go compiler does not introduce secret-dependent branches or table look-ups; integer ALU/SSE instructions have data-independent latency",
